@@ -134,3 +134,9 @@ mod c02_manifests;
 mod c02_blte;
 #[cfg(kani)]
 mod c02_encoding;
+#[cfg(kani)]
+mod c02_misc;
+#[cfg(kani)]
+mod c02_archive_footer;
+#[cfg(kani)]
+mod c08_manifests;
